@@ -530,9 +530,10 @@ def _ls_gen(rng):
         if rng.random() < 0.35:
             kind = rng.choice(["of", "list"] if "list" in kinds else ["of"])
         if op == "flat_map(observable)":
-            kind = rng.choice(["of", "of", "empty", "of+throw", "of+never", "throw", "never"])
+            # also a CONSTANT ITERABLE (documented form flat_map(iterable)), the empty -- falsy -- one included
+            kind = rng.choice(["of", "of", "empty", "of+throw", "of+never", "throw", "never", "list", "list"])
         n = 0 if kind in ("empty", "throw", "never", "done_subject", "failed_future") else \
-            1 if kind == "future" else rng.choice([1, 2, 3])
+            1 if kind == "future" else rng.choice([0, 0, 1, 2, 3]) if kind == "list" else rng.choice([1, 2, 3])
         inners.append({"kind": kind, "n": n})
     narr = rng.choice([0, 1, 2, 3, 4, 5])
     arrivals = []
